@@ -7,7 +7,10 @@ dies at event k (`os._exit(137)`: no finally, lock files of the dead PID stay / 
 everything the child leaves behind is killed and reaped, and the same task is submitted again into
 the same cache root by a fresh process under a wide watchdog.  File writes in progress are modelled
 by truncating each file the job path writes to many prefix lengths (after a complete run, and after
-a crash right behind the write so that the dead process's lock and bookkeeping files are there too).
+a crash right behind the write so that the dead process's lock and bookkeeping files are there too):
+lengths spread over the file (the file ends inside a pickle frame) and boundary lengths (empty, one
+byte, exactly in front of the 2nd..4th opcode = after the protocol header / after the frame header,
+exactly in front of every further frame, all but the last byte).
 
 Oracle for the resubmission: it returns the correct outputs (from the cache or by re-executing);
 each body ran at most once in the resubmission and at most twice over both submissions; it never
@@ -34,7 +37,8 @@ RULE = (
     "executes inside the job path (Job.run / run_async / _populate_filesystem, result.save / "
     "record_error, Audit.start_audit / finalize_audit, the task _run), modes crash (os._exit at the "
     "event) and interrupt (KeyboardInterrupt at the event); plus (kind, state, job, file, cut) "
-    "truncation cases for every pickle the job path writes. Kinds: python task, shell task, two-node "
+    "truncation cases for every pickle the job path writes (cut = a length spread over the file, or a "
+    "boundary: 0, 1, size-1, the start of opcode 1..3 of the pickle, the start of each further frame). Kinds: python task, shell task, two-node "
     "workflow under the debug worker and under cf (events of pool workers are numbered in the same "
     "sequence). Non-trivial = the fault really fired at the expected (function, line) / the file was "
     "really cut short; distinct = (kind, mode, event index) resp. (kind, state, job, file, cut)."
@@ -47,7 +51,8 @@ ASSUMPTIONS = [
     "0.1-1.5 s) and reported only when the traced job path reached no new line for >= 60 s while an "
     "untouched lock file of the dead process is still there; any other timeout is counted as inconclusive",
     "quick tier: every point of the python and shell tasks, every 3rd point of the debug workflow and "
-    "every 6th of the cf workflow (residue rotates with VERIF_SEED), 32 (python task) / 10 cut lengths per result file; "
+    "every 6th of the cf workflow (residue rotates with VERIF_SEED), 35 (python task) / 13 cut lengths per result file "
+    "(6 boundary lengths + spread lengths, alternating in the execution order); "
     "thorough: all points, all cut lengths of the result file of the python task",
 ]
 SHARDS = {"quick": 16, "thorough": 16}
@@ -316,9 +321,32 @@ def check_fault(case):
         scratchdir.rm(d)
 
 
-def cut_length(cut, size: int) -> int:
+def pickle_marks(data: bytes):
+    """(offsets at which the opcodes of the pickle start, offsets at which its frames start): the
+    places where a pickler hands data to the file, i.e. where a file that is still being written
+    really ends.  A file cut there makes the unpickler run out of input cleanly instead of
+    finding a truncated frame."""
+    import pickletools
+
+    ops, frames = [], []
+    try:
+        for op, _arg, pos in pickletools.genops(data):
+            ops.append(pos)
+            if op.name == "FRAME":
+                frames.append(pos)
+    except Exception as e:  # the complete file is written by pydra: it must parse
+        raise HarnessError(f"result file is not a complete pickle: {e!r}")
+    return ops, frames
+
+
+def cut_length(cut, size: int, path=None) -> int:
     how = cut[0]
-    if how == "abs":
+    if how in ("op", "frame"):
+        ops, frames = pickle_marks(Path(path).read_bytes())
+        marks = ops if how == "op" else frames
+        n = marks[min(cut[1], len(marks) - 1)]
+        LAST["clamped"] = cut[1] > len(marks) - 1
+    elif how == "abs":
         n = cut[1]
     elif how == "end":
         n = size - cut[1]
@@ -353,8 +381,9 @@ def check_truncate(case):
         if not f.exists():
             raise HarnessError(f"{f} does not exist ({what})")
         size = f.stat().st_size
-        n = cut_length(case["cut"], size)
-        LAST["clamped"] = case["cut"][0] == "abs" and case["cut"][1] != n
+        LAST["clamped"] = False
+        n = cut_length(case["cut"], size, f)
+        LAST["clamped"] = LAST["clamped"] or (case["cut"][0] == "abs" and case["cut"][1] != n)
         LAST["fired"] = True
         with open(f, "r+b") as fp:
             fp.truncate(n)
@@ -443,10 +472,27 @@ def truncation_targets(kind, trace, sh):
     return out
 
 
-def cuts_for(size, n_spread, every=False):
+N_OP_CUTS = 3       # the file ends exactly in front of opcode 1..3 (PROTO | FRAME header | first item)
+MAX_FRAME_CUTS = 6  # ... or exactly in front of a further frame (files of more than one frame)
+
+
+def boundary_cuts(n_frames=1):
+    """ends that a write in progress really produces (nothing, a flushed header, whole frames,
+    everything but the last byte), most plausible first"""
+    cuts = [["abs", 0], ["op", 1], ["end", 1], ["abs", 1]]
+    cuts += [["frame", j] for j in range(1, min(n_frames, MAX_FRAME_CUTS + 1))]
+    cuts += [["op", i] for i in range(2, N_OP_CUTS + 1)]
+    return cuts
+
+
+def is_boundary_cut(cut):
+    return cut[0] in ("op", "frame", "end") or (cut[0] == "abs" and cut[1] <= 1)
+
+
+def cuts_for(size, n_spread, every=False, n_frames=1):
     if every:
-        return [["abs", i] for i in range(size)]
-    cuts = [["abs", 0], ["abs", 1], ["end", 1]]
+        return boundary_cuts(n_frames) + [["abs", i] for i in range(size)]
+    cuts = boundary_cuts(n_frames)
     cuts += [["frac", i, n_spread] for i in range(1, n_spread - 2)]
     return cuts
 
@@ -454,15 +500,31 @@ def cuts_for(size, n_spread, every=False):
 def interleave(cases):
     """proportional interleaving of the (kind, mode) groups, so that a run that is cut short by its
     time budget has still sampled every group evenly (the order is deterministic)"""
+    phi = 0.6180339887498949
     groups: dict = {}
     for c in cases:
-        groups.setdefault((c["kind"], c["mode"], c.get("state")), []).append(c)
+        g = (c["kind"], c["mode"], c.get("state"))
+        if c["mode"] == "truncate":      # one group per truncated file
+            g += (c["job"], c["file"], c.get("phase"))
+        groups.setdefault(g, []).append(c)
     order = {g: i for i, g in enumerate(groups)}
     keyed = []
     for g, lst in groups.items():
+        if g[1] == "truncate":
+            # boundary cuts (in their order) alternate with the spread cuts (in an order whose
+            # prefixes cover the whole file), so that a prefix of the group has both classes
+            bnd = [c for c in lst if is_boundary_cut(c["cut"])]
+            spr = [c for c in lst if not is_boundary_cut(c["cut"])]
+            spr = [c for _, _, c in sorted(((j * phi) % 1.0, j, c) for j, c in enumerate(spr))]
+            merged = []
+            for j in range(max(len(bnd), len(spr))):
+                merged += bnd[j:j + 1] + spr[j:j + 1]
+            for j, c in enumerate(merged):
+                keyed.append((j / len(merged), order[g], j, c))
+            continue
         for j, c in enumerate(lst):
             # bit-reversal-like spread inside the group: early items cover the whole path
-            keyed.append(((j * 0.6180339887498949) % 1.0 if len(lst) > 1 else 0.0, order[g], j, c))
+            keyed.append(((j * phi) % 1.0 if len(lst) > 1 else 0.0, order[g], j, c))
     keyed.sort(key=lambda t: t[:3])
     return [t[3] for t in keyed]
 
@@ -489,6 +551,8 @@ def run(sh):
         sizes = {(j, f): (cd.cache / dn / f).stat().st_size
                  for j, dn in dirs.items() for f in ("_result.pklz", "_job.pklz")
                  if (cd.cache / dn / f).exists()}
+        n_frames = {(j, f): len(pickle_marks((cd.cache / dirs[j] / f).read_bytes())[1])
+                    for (j, f) in sizes}
         n_spread = 32 if sh.quick else 64
         for (job, fname), size in sorted(sizes.items()):
             every = (not sh.quick) and kind == "python" and fname == "_result.pklz"
@@ -497,7 +561,7 @@ def run(sh):
             n_cuts = n_spread if fname == "_result.pklz" else 8
             if sh.quick and kind != "python":
                 n_cuts = min(n_cuts, 10)
-            for cut in cuts_for(size, n_cuts, every):
+            for cut in cuts_for(size, n_cuts, every, n_frames[(job, fname)]):
                 cases.append(dict(kind=kind, mode="truncate", state="complete", job=job,
                                   file=fname, cut=cut))
         for k, job, fname, phase in truncation_targets(kind, trace, sh):
@@ -509,7 +573,7 @@ def run(sh):
             n_cuts = n_spread if fname == "_result.pklz" else 8
             if sh.quick and kind != "python":
                 n_cuts = min(n_cuts, 10)
-            for cut in cuts_for(size, n_cuts, every):
+            for cut in cuts_for(size, n_cuts, every, n_frames.get((job, fname), 1)):
                 cases.append(dict(kind=kind, mode="truncate", state="crash", event_index=k,
                                   expect=[row[2], row[3]], job=job, file=fname, phase=phase,
                                   cut=cut))
@@ -535,6 +599,8 @@ def run(sh):
             labels.append(f"truncate:{case['state']}:{case['file']}")
             if info.get("clamped"):
                 labels.append("cut_clamped")
+            labels.append("cut:" + ("boundary:" + case["cut"][0] if is_boundary_cut(case["cut"])
+                                    else "spread"))
         else:
             labels.append(f"fault_run:{info.get('fault_status')}")
             if info.get("where"):
